@@ -46,33 +46,35 @@ theorem takeAsync_written_lt (p : List Ev) (ts : Nat) : ∀ e ∈ (takeAsync p t
 
 /-! ### save_trigger_read: what it leaves alone, and the events it adds -/
 
-theorem saveReadOne_b (off now midx : Nat) (diff : Bool) (o : Obs) (mask : Nat) (f : EFrame) (src : ReadSrc) :
-    (saveReadOne off now midx diff o mask f src).b = f.b ∧
-    (saveReadOne off now midx diff o mask f src).argFl = f.argFl ∧
-    (saveReadOne off now midx diff o mask f src).argSz = f.argSz ∧
-    (saveReadOne off now midx diff o mask f src).retFl = f.retFl ∧
-    (saveReadOne off now midx diff o mask f src).readFl = f.readFl := by
+theorem saveReadOne_b (pair : Bool) (off now midx : Nat) (diff : Bool) (o : Obs) (mask : Nat) (f : EFrame) (src : ReadSrc) :
+    (saveReadOne pair off now midx diff o mask f src).b = f.b ∧
+    (saveReadOne pair off now midx diff o mask f src).argFl = f.argFl ∧
+    (saveReadOne pair off now midx diff o mask f src).argSz = f.argSz ∧
+    (saveReadOne pair off now midx diff o mask f src).retFl = f.retFl ∧
+    (saveReadOne pair off now midx diff o mask f src).readFl = f.readFl := by
   unfold saveReadOne
   split
   · simp
   · split
     · simp
-    · split <;> simp
+    · split
+      · simp
+      · split <;> simp
 
-theorem saveReadL_b (off now midx : Nat) (diff : Bool) (o : Obs) (mask : Nat) (srcs : List ReadSrc) :
+theorem saveReadL_b (pair : Bool) (off now midx : Nat) (diff : Bool) (o : Obs) (mask : Nat) (srcs : List ReadSrc) :
     ∀ f : EFrame,
-    (saveReadL off now midx diff o mask srcs f).b = f.b ∧
-    (saveReadL off now midx diff o mask srcs f).argFl = f.argFl ∧
-    (saveReadL off now midx diff o mask srcs f).argSz = f.argSz ∧
-    (saveReadL off now midx diff o mask srcs f).retFl = f.retFl ∧
-    (saveReadL off now midx diff o mask srcs f).readFl = f.readFl := by
+    (saveReadL pair off now midx diff o mask srcs f).b = f.b ∧
+    (saveReadL pair off now midx diff o mask srcs f).argFl = f.argFl ∧
+    (saveReadL pair off now midx diff o mask srcs f).argSz = f.argSz ∧
+    (saveReadL pair off now midx diff o mask srcs f).retFl = f.retFl ∧
+    (saveReadL pair off now midx diff o mask srcs f).readFl = f.readFl := by
   induction srcs with
   | nil => intro f; simp [saveReadL]
   | cons s r ih =>
     intro f
     simp only [saveReadL]
-    have h1 := saveReadOne_b off now midx diff o mask f s
-    have h2 := ih (saveReadOne off now midx diff o mask f s)
+    have h1 := saveReadOne_b pair off now midx diff o mask f s
+    have h2 := ih (saveReadOne pair off now midx diff o mask f s)
     refine ⟨h2.1.trans h1.1, h2.2.1.trans h1.2.1, h2.2.2.1.trans h1.2.2.1, h2.2.2.2.1.trans h1.2.2.2.1,
       h2.2.2.2.2.trans h1.2.2.2.2⟩
 
@@ -81,16 +83,19 @@ theorem saveRead_b (cfg : ECfg) (f : EFrame) (mask midx : Nat) (diff : Bool) (o 
     (saveRead cfg f mask midx diff o).argFl = f.argFl ∧
     (saveRead cfg f mask midx diff o).argSz = f.argSz ∧
     (saveRead cfg f mask midx diff o).retFl = f.retFl ∧
-    (saveRead cfg f mask midx diff o).readFl = f.readFl :=
-  saveReadL_b _ _ _ _ _ _ _ f
+    (saveRead cfg f mask midx diff o).readFl = f.readFl := by
+  unfold saveRead
+  split
+  · simp
+  · exact saveReadL_b _ _ _ _ _ _ _ _ f
 
 theorem mkReadEv_time (f : EFrame) (now midx : Nat) (diff : Bool) (src : ReadSrc) (v : List Nat) :
     (mkReadEv f now midx diff src v).time = now := by
   unfold mkReadEv
   split <;> rfl
 
-theorem saveReadOne_evs (off now midx : Nat) (diff : Bool) (o : Obs) (mask : Nat) (f : EFrame) (src : ReadSrc) :
-    ∃ new, (saveReadOne off now midx diff o mask f src).evs = new ++ f.evs ∧ ∀ e ∈ new, e.time = now := by
+theorem saveReadOne_evs (pair : Bool) (off now midx : Nat) (diff : Bool) (o : Obs) (mask : Nat) (f : EFrame) (src : ReadSrc) :
+    ∃ new, (saveReadOne pair off now midx diff o mask f src).evs = new ++ f.evs ∧ ∀ e ∈ new, e.time = now := by
   unfold saveReadOne
   split
   · exact ⟨[], by simp⟩
@@ -98,18 +103,20 @@ theorem saveReadOne_evs (off now midx : Nat) (diff : Bool) (o : Obs) (mask : Nat
     · exact ⟨[], by simp⟩
     · split
       · exact ⟨[], by simp⟩
-      · rename_i v _
-        exact ⟨[mkReadEv f now midx diff src v], by simp [mkReadEv_time]⟩
+      · split
+        · exact ⟨[], by simp⟩
+        · rename_i v _
+          exact ⟨[mkReadEv f now midx diff src v], by simp [mkReadEv_time]⟩
 
-theorem saveReadL_evs (off now midx : Nat) (diff : Bool) (o : Obs) (mask : Nat) (srcs : List ReadSrc) :
-    ∀ f : EFrame, ∃ new, (saveReadL off now midx diff o mask srcs f).evs = new ++ f.evs ∧
+theorem saveReadL_evs (pair : Bool) (off now midx : Nat) (diff : Bool) (o : Obs) (mask : Nat) (srcs : List ReadSrc) :
+    ∀ f : EFrame, ∃ new, (saveReadL pair off now midx diff o mask srcs f).evs = new ++ f.evs ∧
       ∀ e ∈ new, e.time = now := by
   induction srcs with
   | nil => intro f; exact ⟨[], by simp [saveReadL]⟩
   | cons s r ih =>
     intro f
-    obtain ⟨n1, h1, t1⟩ := saveReadOne_evs off now midx diff o mask f s
-    obtain ⟨n2, h2, t2⟩ := ih (saveReadOne off now midx diff o mask f s)
+    obtain ⟨n1, h1, t1⟩ := saveReadOne_evs pair off now midx diff o mask f s
+    obtain ⟨n2, h2, t2⟩ := ih (saveReadOne pair off now midx diff o mask f s)
     refine ⟨n2 ++ n1, ?_, ?_⟩
     · simp only [saveReadL]; rw [h2, h1]; simp
     · intro e he
@@ -120,8 +127,11 @@ theorem saveReadL_evs (off now midx : Nat) (diff : Bool) (o : Obs) (mask : Nat) 
 
 /-- the events a hook adds to a frame's area all carry the hook's time -/
 theorem saveRead_evs (cfg : ECfg) (f : EFrame) (mask midx : Nat) (diff : Bool) (o : Obs) :
-    ∃ new, (saveRead cfg f mask midx diff o).evs = new ++ f.evs ∧ ∀ e ∈ new, e.time = hookTime f.b :=
-  saveReadL_evs _ _ _ _ _ _ _ f
+    ∃ new, (saveRead cfg f mask midx diff o).evs = new ++ f.evs ∧ ∀ e ∈ new, e.time = hookTime f.b := by
+  unfold saveRead
+  split
+  · exact ⟨[], by simp⟩
+  · exact saveReadL_evs _ _ _ _ _ _ _ _ f
 
 /-! ### frames: owed ENTRY records, written marks -/
 
@@ -312,22 +322,26 @@ theorem withW_self (F : EFrame) (w : Bool) (h : F.b.written = w) : withW F w = F
 @[simp] theorem argDataOff_withW (cfg : ECfg) (F : EFrame) (w : Bool) (p : Nat) :
     argDataOff cfg (withW F w) p = argDataOff cfg F p := rfl
 
-theorem saveReadOne_withW (off now midx : Nat) (diff : Bool) (o : Obs) (mask : Nat) (f : EFrame) (src : ReadSrc)
+@[simp] theorem hasRead_withW (F : EFrame) (w : Bool) (src : ReadSrc) : hasRead (withW F w) src = hasRead F src := rfl
+
+theorem saveReadOne_withW (pair : Bool) (off now midx : Nat) (diff : Bool) (o : Obs) (mask : Nat) (f : EFrame) (src : ReadSrc)
     (w : Bool) :
-    saveReadOne off now midx diff o mask (withW f w) src = withW (saveReadOne off now midx diff o mask f src) w := by
+    saveReadOne pair off now midx diff o mask (withW f w) src = withW (saveReadOne pair off now midx diff o mask f src) w := by
   unfold saveReadOne
-  simp only [withW_eventIdx]
+  simp only [withW_eventIdx, hasRead_withW]
   by_cases h1 : (mask &&& src.bit == 0) = true
   · simp [h1]
-  · by_cases h2 : f.eventIdx < src.evsize + off
-    · simp [h1, h2]
-    · cases h3 : o.reads src.bit with
-      | none => simp [h1, h2, h3]
-      | some v => simp only [h1, h2, h3]; rfl
+  · by_cases h0 : (pair && diff && !hasRead f src) = true
+    · simp only [h1, h0, ↓reduceIte, Bool.false_eq_true]
+    · by_cases h2 : f.eventIdx < src.evsize + off
+      · simp only [h1, h0, h2, ↓reduceIte, Bool.false_eq_true]
+      · cases h3 : o.reads src.bit with
+        | none => simp only [h1, h0, h2, h3, ↓reduceIte, Bool.false_eq_true]
+        | some v => simp only [h1, h0, h2, h3, ↓reduceIte, Bool.false_eq_true]; rfl
 
-theorem saveReadL_withW (off now midx : Nat) (diff : Bool) (o : Obs) (mask : Nat) (srcs : List ReadSrc) (w : Bool) :
-    ∀ f : EFrame, saveReadL off now midx diff o mask srcs (withW f w) =
-      withW (saveReadL off now midx diff o mask srcs f) w := by
+theorem saveReadL_withW (pair : Bool) (off now midx : Nat) (diff : Bool) (o : Obs) (mask : Nat) (srcs : List ReadSrc) (w : Bool) :
+    ∀ f : EFrame, saveReadL pair off now midx diff o mask srcs (withW f w) =
+      withW (saveReadL pair off now midx diff o mask srcs f) w := by
   induction srcs with
   | nil => intro f; rfl
   | cons s r ih => intro f; simp only [saveReadL, saveReadOne_withW, ih]
@@ -337,7 +351,8 @@ theorem exitArea_withW (cfg : ECfg) (F : EFrame) (w : Bool) (n : Nat) (o : Obs) 
   unfold exitArea
   simp only [withW_readFl]
   by_cases h : F.readFl = true
-  · simp only [h, ↓reduceIte, saveRead, argDataOff_withW, hookTime_withW, withW_addr, saveReadL_withW]
+  · simp only [h, ↓reduceIte, saveRead, argDataOff_withW, hookTime_withW, withW_addr, saveReadL_withW, withW_eventIdx]
+    split <;> rfl
   · simp [h]
 
 
